@@ -171,6 +171,8 @@ SHExts(raw) == IF Len(raw) < 39 THEN <<>> ELSE
 IsHRRMsg(raw) == Len(raw) >= 38 /\ raw[1] = 2 /\ SubSeq(raw, 7, 38) = HRRMagic
 BodyOfType(exts, t) == LET I == {k \in DOMAIN exts : ~exts[k].bad /\ exts[k].type = t} IN
                        IF I = {} THEN <<-1>> ELSE exts[CHOOSE k \in I : TRUE].body
+\* the cipher suite a ServerHello / HelloRetryRequest selects
+SHSuiteOf(raw) == IF Len(raw) < 41 \/ 41 + raw[39] > Len(raw) THEN 0 ELSE RdU16(raw, 40 + raw[39])
 HRRGroupOf(raw) == LET b == BodyOfType(SHExts(raw), 51) IN IF Len(b) = 2 THEN RdU16(b, 1) ELSE 0
 \* the body of the HelloRetryRequest's cookie extension (cookie<1..2^16-1> with its length prefix), <<>> when it has none
 HRRCookieOf(raw) == LET b == BodyOfType(SHExts(raw), 44) IN IF b = <<-1>> THEN <<>> ELSE b
@@ -179,7 +181,7 @@ EERetryOf(raw) == IF Len(raw) < 6 THEN <<>> ELSE
                   LET b == BodyOfType(ParseExts(raw, 7, Len(raw)), ExtECH) IN IF b = <<-1>> THEN <<>> ELSE b
 
 \* ======================================================================== Part 2: the state machine
-(* scn: [id, sname, pubname, cfg_list (the client's ECHConfigList), server \in ServerModes, hrr_group, retry_list (what the
+(* scn: [id, sname, pubname, cfg_list (the client's ECHConfigList), server \in ServerModes, suite (the TLS 1.3 suite it selects), hrr_group, retry_list (what the
    server is configured to offer for retry; <<>> = nothing), cert \in CertKinds]                                          *)
 ServerModes == {"accept", "hrr", "reject", "reject_hrr", "noech"}
 CertKinds == {"sn", "pub", "both", "neither"}
@@ -194,8 +196,19 @@ Cfg(s) == PickCfg(s.cfg_list)
 AbsName(n, s) == IF n = s.sname THEN "example.com" ELSE IF n = s.pubname THEN "another.example" ELSE "unrelated.example"
 SanViews(kind) == CASE kind = "sn" -> {"valid"} [] kind = "pub" -> {"wrongname"} [] kind = "both" -> {"valid", "wrongname"} [] OTHER -> {}
 CertAccepts(kind, vname, s) ==
-  \E c \in SanViews(kind) : ShouldAccept(c, [server_name |-> AbsName(vname, s), itv |-> "", skip_time |-> FALSE, skip_verify |-> FALSE, clock |-> 0])
+  \E c \in SanViews(kind) : ShouldAccept(c, [server_name |-> AbsName(vname, s), setsni |-> "", itv |-> "", skip_time |-> FALSE, skip_verify |-> FALSE, clock |-> 0])
 VerifyNameFor(accepted, s) == IF accepted THEN s.sname ELSE s.pubname
+
+\* ---- the acceptance confirmation (RFC 9849 7.2, 7.2.1): 8 bytes the server derives with HKDF-Extract / HKDF-Expand-Label over the
+\* transcript of the inner hello, written into ServerHello.random (after a HelloRetryRequest also into the HRR's
+\* encrypted_client_hello extension).  HKDF and the transcript hash are those of the NEGOTIATED TLS 1.3 cipher suite - not of the
+\* HPKE KDF of the ECH configuration: a client that derives it with another hash reads "not accepted" from an accepting server.
+\* (The bytes themselves are not recomputed here - that would take SHA-2 in TLA+; the law is judged by its effect: both sides
+\* report acceptance whenever the server holds the key, whatever suite it selects.)
+HashOf(suite) == IF suite = 4866 THEN "sha384" ELSE "sha256"      \* TLS_AES_256_GCM_SHA384 | TLS_AES_128_GCM_SHA256, TLS_CHACHA20_POLY1305_SHA256
+AcceptSignal(accepted, suite) == [ok |-> accepted, hash |-> HashOf(suite)]        \* what the server writes
+ReadSignal(sig, hashUsed) == sig.ok /\ sig.hash = hashUsed                        \* what a client deriving it with hashUsed concludes
+ClientSignalHash(s) == HashOf(s.suite)                                            \* the hash the client must use
 
 \* ---- client
 \* how the caller drives the UConn before the first hello leaves: Handshake builds the hello itself (u_conn.go handshakeContext ->
